@@ -171,6 +171,13 @@ func catalogue(sc *issuer.Scenario, rng *rand.Rand) []issuer.Mut {
 		// ---- another proof type only
 		{"only-smt-proof-present", "reject", nil},
 	}
+	if sc.RevokedMirror != nil {
+		ms = append(ms, issuer.Mut{Name: "status-proof-for-2^64-minus-nonce-after-revocation", Expect: "reject", F: func(p *issuer.ProofJ, e *issuer.Env) {
+			// the auth nonce N >= 2^63 IS revoked in the answering tree; the proof is the genuine
+			// non-existence proof of 2^64-N
+			e.Reg[0].Answer = sc.RevokedMirror.Clone()
+		}})
+	}
 	// status answer's Merkle proof
 	honestAns := sc.Env.Reg[0].Answer
 	ms = append(ms, issuer.MTPFaults("status-mtp-", func(p *issuer.ProofJ, e *issuer.Env) **issuer.MTPJ { return &e.Reg[0].Answer.MTP }, honestAns.MTP, rng)...)
@@ -262,7 +269,18 @@ func Run(cfg *common.Config) (*common.Report, error) {
 			return nil, err
 		}
 	}
-	for si, p := range Scenarios(cfg) {
+	scs := Scenarios(cfg)
+	// issuers whose auth nonce is >= 2^63 and survives the decoder's float64 round trip
+	// (a * 10^11 with a odd: exactly representable, printed back digit for digit), with a
+	// revocation tree clustered along that nonce's path beyond bit 12 (N and 2^64-N share
+	// exactly the 12 low bits): a verifier that loses the top bit of the nonce is caught both on
+	// the honest bundle and on the forged-after-revocation fault
+	for i := 0; i < cfg.Pick(1, 6); i++ {
+		a := uint64(92233721+cfg.Rng.Intn(184467440-92233721)) | 1
+		scs = append(scs, issuer.Params{NClaims: 3, NRevoked: 2, RevDeep: []int{13, 14 + cfg.Rng.Intn(6), 22 + cfg.Rng.Intn(20)},
+			Published: issuer.BP(true), AuthNonce: a * 100000000000, RootPos: "index", OmitZero: i%2 == 0})
+	}
+	for si, p := range scs {
 		sc, err := issuer.Build(cfg.Rng, p)
 		if err != nil {
 			return nil, fmt.Errorf("scenario %d (%s): %w", si, p, err)
